@@ -153,12 +153,43 @@ func runTree(rp Replay) (*Case, error) {
 	if cnt, err := t.Count(); (err != nil || cnt != len(trav)) && viol == nil {
 		viol = &Violation{Class: "tree-count", Detail: fmt.Sprintf("count=%d err=%v traversal=%d", cnt, err, len(trav))}
 	}
+	// the records of the tree as its own traversal shows them; when they are ordered by timestamp (always for the
+	// append-only deep trees) the answers have a specification that does not need the model: grEq(q) is the LAST record
+	// with ts <= q ("all" when there is none), less(q) the FIRST record with ts > q ("all" when there is none)
+	var recs []tmindex.VC02Rec
+	ordered := len(trav) > 0 && tc.Kind == "deep"
+	for i, iv := range trav {
+		if i == 0 {
+			recs = append(recs, iv[0])
+		}
+		recs = append(recs, iv[1])
+	}
+	for i := 1; i < len(recs); i++ {
+		if recs[i-1].Ts > recs[i].Ts {
+			ordered = false
+		}
+	}
 	var ge, lt []string
 	for _, q := range tc.Qs {
 		r, c := t.GrEq(q)
 		ge = append(ge, gAns(r, c))
-		r, c = t.Less(q)
-		lt = append(lt, gAns(r, c))
+		r2, c2 := t.Less(q)
+		lt = append(lt, gAns(r2, c2))
+		if ordered && viol == nil {
+			n := sort.Search(len(recs), func(i int) bool { return recs[i].Ts > q }) // number of records with ts <= q
+			wantGe, wantLt := "AAll", "AAll"
+			if n > 0 {
+				wantGe = gAns(recs[n-1], tmindex.VC02AnsRecord)
+			}
+			if n < len(recs) {
+				wantLt = gAns(recs[n], tmindex.VC02AnsRecord)
+			}
+			if gAns(r, c) != wantGe {
+				viol = &Violation{Class: "tree-greq-answer", Detail: fmt.Sprintf("a tree of %d in-order intervals (level %d): grEq(%d) = %s, the last record with ts <= %d is %s", len(trav), t.Level(), q, gAns(r, c), q, wantGe)}
+			} else if gAns(r2, c2) != wantLt {
+				viol = &Violation{Class: "tree-less-answer", Detail: fmt.Sprintf("a tree of %d in-order intervals (level %d): less(%d) = %s, the first record with ts > %d is %s", len(trav), t.Level(), q, gAns(r2, c2), q, wantLt)}
+			}
+		}
 	}
 	lvl := t.Level()
 	merged := len(trav) < len(tc.Adds)
